@@ -2,6 +2,7 @@ package props
 
 import (
 	"fmt"
+	"os"
 
 	"verifsim/chooser"
 	"verifsim/sched"
@@ -24,12 +25,16 @@ type c08Config struct {
 	Ops        int    `json:"ops"`
 	Weights    []int  `json:"op_weights"`
 	PresentPct int    `json:"present_pct"`
+	PutNewPct  int    `json:"put_new_key_pct"`
 	SweepEvery int    `json:"sweep_every"`
 }
 
+// forceDeep (experiments only, VERIF_C08_DEEP=1) makes every non-churn run a deep run.
+var forceDeep = os.Getenv("VERIF_C08_DEEP") != ""
+
 func drawC08Config(ch chooser.Chooser) c08Config {
 	var c c08Config
-	if ch.Draw(2, "profile") == 1 {
+	if ch.Draw(2, "profile") == 1 && !forceDeep {
 		// Churn: a cache kept full by a key space slightly larger than the
 		// limit, mostly Put/Get with some Remove - evictions on most Puts and
 		// the recency structure stirred by removals in between.
@@ -40,7 +45,23 @@ func drawC08Config(ch chooser.Chooser) c08Config {
 		c.Ops = c08Lens[1+ch.Draw(len(c08Lens)-1, "nops")]
 		c.Weights = []int{4, 4, 1, 1 + ch.Draw(3, "w.Remove"), 0, 1, 1}
 		c.PresentPct = c08PresentPct[ch.Draw(3, "present")]
+		c.PutNewPct = []int{0, 30, 60}[ch.Draw(3, "putnew")]
 		c.SweepEvery = []int{1, 4, 16}[ch.Draw(3, "sweep")]
+		return c
+	}
+	if ch.Draw(3, "deep?") == 2 || forceDeep {
+		// Deep: a large cache kept full for a long time, many Gets and some
+		// Removes - the recency heap is four to six levels deep and constantly
+		// rearranged from its interior.
+		c.Profile = "deep"
+		c.Limit = c08Limits[11+ch.Draw(len(c08Limits)-11, "limit")]
+		c.Sized = false
+		c.Keys = c.Limit + 1 + ch.Draw(8, "keys")
+		c.Ops = c08Lens[3+ch.Draw(2, "nops")]
+		c.Weights = []int{4, 6, 1, 1 + ch.Draw(3, "w.Remove"), 0, 0, 0}
+		c.PresentPct = c08PresentPct[1+ch.Draw(3, "present")]
+		c.PutNewPct = []int{40, 60, 80}[ch.Draw(3, "putnew")]
+		c.SweepEvery = 16
 		return c
 	}
 	c.Profile = "free"
@@ -103,8 +124,26 @@ func min64(a, b int64) int64 {
 }
 
 // drawOp draws the next operation. seq makes every written value unique.
-func drawOp(ch chooser.Chooser, m *lruModel, weights []int, keys, presentPct, seq int) Op {
+func drawOp(ch chooser.Chooser, m *lruModel, weights []int, keys, presentPct, putNewPct, seq int) Op {
 	op := Op{Kind: weighted(ch, weights, "op")}
+	if op.Kind == OpPut && putNewPct > 0 && len(m.ents) < keys && ch.Draw(100, "newkey?") < putNewPct {
+		// a key that is not in the cache: the i-th absent one
+		i := ch.Draw(keys-len(m.ents), "akey")
+		for k := 0; k < keys; k++ {
+			if m.find(k) < 0 {
+				if i == 0 {
+					op.K = k
+					break
+				}
+				i--
+			}
+		}
+		op.V = seq
+		if m.sized {
+			op.V = seq<<8 | drawPutSize(ch, m.limit, m.size())
+		}
+		return op
+	}
 	switch op.Kind {
 	case OpPut, OpGet, OpHas, OpRemove:
 		if n := len(m.ents); n > 0 && presentPct > 0 && ch.Draw(100, "present?") < presentPct {
@@ -152,7 +191,7 @@ func runC08(ch chooser.Chooser, st *Stats, mk cacheMaker) *Outcome {
 		return out
 	}
 	for i := 0; i < cfg.Ops; i++ {
-		op := drawOp(ch, m, cfg.Weights, cfg.Keys, cfg.PresentPct, i+1)
+		op := drawOp(ch, m, cfg.Weights, cfg.Keys, cfg.PresentPct, cfg.PutNewPct, i+1)
 		before := m.clone()
 		ex := m.step(op)
 		var ob Obs
